@@ -30,6 +30,15 @@ CHECKS = {
     "C08": ("exhaustive enumeration of programs (introspected API surface) x synthesised argument grids x input family; before/after comparison of the complete instance state",
             "Every public callable of the xgi namespace whose first parameter is a network (105 today, found by introspection, so new functions are included automatically), the class converters, read-only methods, every view method and set operation, and every statistic of the four stats modules with every output method is called on each network of a family of 40 (quick) / 80+ (thorough) structurally diverse inputs of the three classes with up to 12 argument combinations from a name-driven synthesiser (in_place always False); the complete instance state (ordered IDs, members in iteration order, attributes, next automatic ID, frozen flag) must be identical before and after whether the call returns or raises; sets handed out by the call are modified first, so an internal set returned without copying is caught.",
             "argument combinations capped per function (reported); functions that succeed on no input are listed under not_exercised and not counted as covered; update_uid_counter excluded as documented in-place helper"),
+    "C09": ("exhaustive enumeration of small hypergraphs x relabelling / insertion-order grid; metamorphic comparison f(relabel(H)) == relabel(f(H)) on every case",
+            "All hypergraphs over 3 labels with <=3 edges and 4 labels with <=2 edges (thorough: 4 labels/<=3 edges, 5 labels/<=2 edges; multi-edges, singletons, isolated nodes) x all node permutations, integer shift, string labels; all permutations of edge IDs 0..m-1, gapped IDs, string IDs; all edge insertion orders, reversed node insertion, reversed member order, and a combined relabelling; about 70 observables (degree/size stats, neighbour averages, three clustering coefficients as functions and stats, components, path lengths, densities, exact assortativities on uniform inputs, five simpliciality measures, maximal, duplicate classes, Katz centrality, all matrices through their index maps, line graph, projection) compared after transport through the relabelling.",
+            "numeric tolerance 1e-9; observables raising on both sides are not compared; small-scope hypothesis"),
+    "C10": ("exhaustive enumeration of small networks of the three classes x every converter pair; incidence-set / full-network equality on every case",
+            "All hypergraphs over 3 labels <=3 edges and 4 labels <=2 edges in three ID/attribute decorations (automatic, string, gapped decreasing IDs; nested attribute values; network attributes), with empty edges and string node labels; all directed hypergraphs over 3 labels with <=2 edges; every simplicial complex on <=4 vertices; each through hyperedge list, hyperedge dict, bipartite edge list, labelled and positional incidence matrix (sparse/dense), bipartite graph with index maps, two-column dataframe, standard dict with casts, HIF dict, and the class-to-class constructors; from_bipartite_graph additionally on every bipartite graph with 3+2 vertices x all 120 vertex insertion orders x 3 link orientations x dual.",
+            "label types int/str; list-like representations judged without empty edges"),
+    "C11": ("exhaustive enumeration of small networks x file formats x delimiters; write/read round trip on real files in a scratch directory",
+            "Enumerated networks of the three classes (same families as C10, JSON-representable labels and attribute values, isolated nodes, empty edges, 1xm and nx1 incidence matrices) are written with write_hif / write_json / write_edgelist / write_bipartite_edgelist / write_incidence_matrix and read back under the documented casts with 6 delimiters (5 for the numpy-based matrix format), plus dual=True and HIF/JSON collections as list and dict; HIF/JSON compared as full networks (class, isolated nodes, empty edges, attributes), text formats by incidences.",
+            "files live in a per-run temporary directory that is removed; multi-character delimiters are outside numpy.loadtxt's contract for the matrix format"),
 }
 
 NOT_APPLICABLE = []
